@@ -53,7 +53,7 @@ func parseCfg(c string) rscp.ClientConfig {
 
 func init() {
 	props["C16"] = &prop{
-		rule: "every subset of the four required fields x checksum option of 10 Go kinds (nil, true, false, int, string, float64, struct, *bool, slice, func) x key/user/password lengths {0,1,31,32,33,64,255,70000} x numeric options {0, negative, 1, max} (sampled cross product + all single-factor variations); non-trivial = all four required fields present; distinct by case line",
+		rule: "the options a client really uses over three connections of its life (checksum flag of every frame the device receives, effective configuration unchanged; 3 checksum settings) + every subset of the four required fields x checksum option of 10 Go kinds (nil, true, false, int, string, float64, struct, *bool, slice, func) x key/user/password lengths {0,1,31,32,33,64,255,70000} x numeric options {0, negative, 1, max} (sampled cross product + all single-factor variations); non-trivial = all four required fields present; distinct by case line",
 		gen: func(tier string, r *rng, emit func(string)) {
 			lens := []int{0, 1, 31, 32, 33, 64, 255, 65535, 65536, 65537, 70000, 131072}
 			cks := []string{"nil", "true", "false", "1", "2", "3", "4", "5", "6", "7", "8"}
@@ -69,6 +69,12 @@ func init() {
 				for _, b := range []int{0, 1, 2, 4, 3000} {
 					emit(fmt.Sprintf("CFGREAD %d %d", a, b))
 				}
+			}
+			// the options a client really uses over its life: three connections of one client (exchange, Disconnect, a connection
+			// that breaks inside a call, exchange) - every frame carries the checksum the configuration means and the effective
+			// configuration is what it was when the client was created (real connect() against the loopback device)
+			for _, ck := range []string{"nil", "true", "false"} {
+				emit("CFGLIFE " + ck)
 			}
 			// every subset of the required fields x every checksum kind
 			for m := 0; m < 16; m++ {
@@ -144,6 +150,47 @@ func init() {
 				}
 				return out
 			}
+			if strings.HasPrefix(c, "CFGLIFE ") {
+				f := strings.Fields(c)
+				var conns [][]reaction
+				for k := 0; k < 3; k++ {
+					pc := newPeerConn("k3y")
+					script := []reaction{answer(pc.reply(authReply(10), true)), answer(pc.reply(sizedReply(1, true, 1), true))}
+					if k == 1 {
+						script[1] = reaction{eof: true} // the connection breaks inside the call: the client closes it itself
+					}
+					conns = append(conns, script)
+				}
+				dev, err := newDevice("k3y", conns)
+				if err != nil {
+					return "ERR device"
+				}
+				defer dev.close()
+				cl, err := rscp.NewClient(rscp.ClientConfig{Address: "127.0.0.1", Port: dev.port(), Username: "u", Password: "p", Key: "k3y", UseChecksum: cksumValue(f[1])})
+				if err != nil {
+					return "ERR"
+				}
+				before := fmt.Sprintf("%v", effectiveConfig(cl))
+				oks := ""
+				for k := 0; k < 3; k++ {
+					_, err = cl.SendMultiple([]rscp.Message{{Tag: rscp.INFO_REQ_SERIAL_NUMBER, DataType: rscp.None}})
+					oks += b01(err == nil)
+					if k == 0 {
+						_ = cl.Disconnect()
+					}
+				}
+				_ = cl.Disconnect()
+				same := b01(before == fmt.Sprintf("%v", effectiveConfig(cl)))
+				dev.close()
+				var crcs []string
+				dev.mu.Lock()
+				for _, h := range dev.plains {
+					pt := unhx(h)
+					crcs = append(crcs, b01(len(pt) >= 4 && pt[3]&0x10 != 0))
+				}
+				dev.mu.Unlock()
+				return fmt.Sprintf("ok=%s crc=%s cfgsame=%s", oks, strings.Join(crcs, ","), same)
+			}
 			cfg := parseCfg(c)
 			cl, err := rscp.NewClient(cfg)
 			if err != nil {
@@ -182,6 +229,27 @@ func init() {
 				b, _ := strconv.Atoi(kv["blocks"])
 				if res == "ERR" || kv["ok"] != "1" || n != 32*b {
 					return fmt.Sprintf("a client whose receive buffer setting means %d block(s) reads with a buffer of %d bytes (after another client with another setting was used): %s", b, n, res)
+				}
+				return ""
+			}
+			if strings.HasPrefix(c, "CFGLIFE ") {
+				f := strings.Fields(c)
+				kv := _kv(res)
+				if res == "ERR" || kv["ok"] != "101" {
+					return "a client with an admissible configuration does not work over three connections (exchange, Disconnect, broken connection, exchange): " + res
+				}
+				wantCk := b01(f[1] != "false")
+				frames := strings.Split(kv["crc"], ",")
+				if len(frames) < 6 {
+					return "fewer than six frames were written over the three connections: " + res
+				}
+				for i, x := range frames {
+					if x != wantCk {
+						return fmt.Sprintf("frame %d of the client's life is written with checksum=%s although the configuration (UseChecksum %s) means %s (checksums are on unless switched off): %s", i, x, f[1], wantCk, res)
+					}
+				}
+				if kv["cfgsame"] != "1" {
+					return "the effective configuration of a client changed during its life: " + res
 				}
 				return ""
 			}
@@ -237,6 +305,9 @@ func init() {
 			if strings.HasPrefix(c, "CFGREAD ") {
 				return "buffer-in-use"
 			}
+			if strings.HasPrefix(c, "CFGLIFE ") {
+				return "options-in-use"
+			}
 			if strings.HasPrefix(res, "OK") {
 				return "accepted"
 			}
@@ -244,7 +315,7 @@ func init() {
 		},
 		nontrivial: func(c, res string) bool {
 			f := strings.Fields(c)
-			if f[0] == "CFGREAD" {
+			if f[0] == "CFGREAD" || f[0] == "CFGLIFE" {
 				return true
 			}
 			return f[1] != "-" && f[2] != "-" && f[3] != "-" && f[4] != "-"
